@@ -31,7 +31,7 @@ func init() {
 		indent := t.int()
 		width := t.int()
 		s := t.hex()
-		if indent < -1000 || indent > 1000 || width < -100000 || width > 100000 || len(s) > 1<<16 {
+		if indent < -1000 || indent > 1000 || width < -100000 || len(s) > 1<<16 {
 			panic(parseError("fmt parameters out of the harness range"))
 		}
 		chars := width - indent*8
